@@ -405,7 +405,7 @@ def build():
   return Property(
     'C19', units,
     bounded=[Bounded('C19/native/generated_config_files', 'replay/schemas_native.py', ['--n', '300'], ['--n', '20000'],
-                     "300 (quick) / 20000 (thorough) seeded random pairs of storage-schemas.conf (1..6 sections, patterns from a pool of 10 overlapping regexes, sections without pattern / without retentions, unknown keys, key order shuffled, 1..3 archives with precision and duration in every unit suffix s/m/h/d/w/y or plain numbers) and storage-aggregation.conf (0..5 sections, missing keys) x 10 metric names, through the real loadStorageSchemas / loadAggregationSchemas and the real create phase of writeCachedDataPoints with a storage double, against an independent reading of the files",
+                     "300 (quick) / 20000 (thorough) seeded random pairs of storage-schemas.conf (1..6 sections, section names incl. 'default' and 'carbon', patterns from a pool of 10 overlapping regexes, sections without pattern / without retentions, unknown keys, key order shuffled, 1..3 archives with precision and duration in every unit suffix s/m/h/d/w/y or plain numbers) and storage-aggregation.conf (0..5 sections, missing keys) x 10 metric names, through the real loadStorageSchemas / loadAggregationSchemas and the real create phase of writeCachedDataPoints with a storage double, against an independent reading of the files",
                      "ConfigParser and the regex / string primitives are assumptions of the proof (A-CONF, A-STR); this runs parser, loaders and writer together on CPython")],
     trusted_base=['A-ENGINE', 'A-SMT', 'A-CONF', 'A-STR(strip/split/isdigit/int/re.match uninterpreted)', 'A-BACKEND'],
     assumptions=[
